@@ -1,3 +1,4 @@
+mod builddrv;
 mod cachew;
 mod dequedrv;
 mod gen;
@@ -257,6 +258,7 @@ fn main() {
         "gen" => gen::cmd_gen(&args[2..]),
         "sketch" => sketchdrv::cmd_sketch(&args[2..]),
         "deque" => dequedrv::cmd_deque(&args[2..]),
+        "build" => builddrv::cmd_build(&args[2..]),
         other => {
             eprintln!("unknown command {}", other);
             std::process::exit(2);
